@@ -13,7 +13,7 @@ LEVEL_NOTE = "proof for the model half, correspondence for the exception-class c
 TECHNIQUE = 'Lean 4 totality/no-stray theorems on the model + differential correspondence on a malformed stream + exception-class oracle'
 RULE = ("PHIL-biased token soup, mutated valid documents (parse), name=value soups (argument interpreter), value texts incl. "
         "inf/nan/1e999/empty brackets/unbalanced parentheses for every built-in type with constructor arguments (fetch, extract, "
-        "validate), attribute texts; non-trivial = the call raised or the text has > 3 tokens; distinct = (stream, text)")
+        "validate), attribute texts, '.expert_level' spellings x ambiguous arguments (finding D78); non-trivial = the call raised or the text has > 3 tokens; distinct = (stream, text)")
 ASSUMPTIONS = ["type names in hostile texts are built-in names or undotted misspellings (a dotted non-built-in type name makes "
                "the code import arbitrary modules, outside the property's 'built-in type names')"]
 
@@ -181,6 +181,32 @@ def run(ctx):
         ctx.count("alias_%s" % (out if isinstance(out, str) else out[0]))
         if not isinstance(out, str):
             ctx.fail({"stream": "alias", "master": mt, "source": st}, "fetch/extract/diff with aliases: %s" % (out,))
+    # ---- '.expert_level' texts of every spelling on some of several same-prefix parameters x an ambiguous argument: the
+    #      interpreter's tie-break reads the levels.  (Integers beyond float range are left out until the proposed repair
+    #      D77 - tie-break in integers - is in the tree: they raise OverflowError from `exp_lvl / 100`.)
+    import contextlib
+    import io
+    for i in range(ctx.scale(120, 2500, 500)):
+        levels = [rng.choice(["", "", "0", "1", "3", "-1", "Auto", "auto", "None", "1.0", "1.5", "True", "x", "2**3", "'2'"])
+                  for _ in range(rng.randint(2, 3))]
+        mt = "".join("a%s = 1\n  .type = int\n%s" % ("bcd"[j], "  .expert_level = %s\n" % lv if lv else "")
+                     for j, lv in enumerate(levels))
+        if rng.random() < 0.3:
+            mt = "s\n%s{\n%s}\n" % (rng.choice(["", "  .expert_level = Auto\n", "  .expert_level = 2\n"]), mt)
+        arg = rng.choice(["a=2", "a=2", "ab=2", "s.a=2", "=2"])
+
+        def fi():
+            m = freephil.parse(input_string=mt)
+            with contextlib.redirect_stdout(io.StringIO()):
+                m.command_line_argument_interpreter().process(arg=arg)
+        out = guarded(fi)
+        ctx.case(("expert_levels", mt, arg), nontrivial=True)
+        ctx.count("expert_levels_%s" % (out if isinstance(out, str) else out[0]))
+        if not isinstance(out, str):
+            # finding class D78, a predicate on the INPUT: some '.expert_level' is the plain word Auto
+            d78 = any(l.strip().lower() == ".expert_level = auto" for l in mt.splitlines())
+            ctx.fail({"stream": "expert_levels", "master": mt, "arg": arg}, "argument interpreter: %s" % (out,),
+                     finding=["D78"] if d78 and out[1] == "TypeError" else None)
     for i in range(n):
         if ctx.time_left() < 25:
             ctx.notes.append("stopped early on time budget")
@@ -299,6 +325,23 @@ def run(ctx):
 
 
 def finding_still_fails(f):
+    if f["id"] == "D78":
+        # parse accepts the master; the argument interpreter must then succeed or refuse with RuntimeError / Sorry
+        w = f["witness"]
+        try:
+            m = freephil.parse(input_string=w["master"])
+        except Exception:        # refused at parse (the repair): the finding covers nothing
+            return False
+        import contextlib
+        import io
+        try:
+            with contextlib.redirect_stdout(io.StringIO()):
+                m.command_line_argument_interpreter().process(arg=w["arg"])
+        except (RuntimeError, freephil.Sorry):
+            return False
+        except Exception:
+            return True
+        return False
     try:
         freephil.parse(input_string=f["witness"]["master"]).fetch()
     except (RuntimeError, freephil.Sorry):
